@@ -3,6 +3,7 @@ import itertools
 import logging
 
 from mc.core import Res
+from mc import adapt as A
 from mc import keys as K
 from mc import recips as R
 from refpgp import keys as rkeys, sig as rsig, wire, enc as renc, msg as rmsg
@@ -122,7 +123,7 @@ class Prop(object):
                     obj = key
                 else:
                     obj = key
-                obj._require_usage_flags = enforce
+                A.set_enforcement(obj, enforce)
                 for op in ('sign', 'certify', 'encrypt'):
                     r.states += 1
                     r.transitions += 1
